@@ -351,8 +351,22 @@ func renderHelper(s *Summary, c *renderCase, v any, presetText string) {
 	}
 }
 
+// renderNamed: a value with a String method (value receiver); what it renders as is its encoding, like any other struct
+type renderNamed struct {
+	A int    `json:"a" xml:"a"`
+	B string `json:"b" xml:"b"`
+}
+
+func (n renderNamed) String() string { return "named#" + n.B }
+
 func renderAccept(s *Summary, c *renderCase) {
-	obj := renderStruct{ID: 3, Title: "t"}
+	// the value: a struct, a struct with a String method, and a typed nil pointer of such a type (a lookup that found nothing)
+	for vi, obj := range []any{renderStruct{ID: 3, Title: "t"}, renderNamed{A: 1, B: "x"}, (*renderNamed)(nil), (*url.URL)(nil)} {
+		renderAcceptValue(s, c, vi, obj)
+	}
+}
+
+func renderAcceptValue(s *Summary, c *renderCase, vi int, obj any) {
 	for _, sep := range []string{",", ", ", " , "} {
 		w := httptest.NewRecorder()
 		req := &http.Request{Method: "GET", URL: &url.URL{Path: "/"}, Header: http.Header{}, Proto: "HTTP/1.1"}
@@ -382,10 +396,21 @@ func renderAccept(s *Summary, c *renderCase) {
 		default:
 			got = "nothing written (Content-Type " + ct + ")"
 		}
+		if pan == nil && vi >= 2 && c.Pick == "xml" {
+			continue // (what encoding/xml makes of a nil pointer is not constrained)
+		}
 		if got != c.Pick {
-			s.mismatch(map[string]any{"kind": "render", "aspect": "negotiation", "what": fmt.Sprintf("Accept: %q -> render.Auto answers %s (err=%v), the first supported type listed is %s",
-				strings.Join(c.L, sep), got, err, c.Pick)}, c)
+			s.mismatch(map[string]any{"kind": "render", "aspect": "negotiation", "what": fmt.Sprintf("Accept: %q, value %#v -> render.Auto answers %s (err=%v), the first supported type listed is %s",
+				strings.Join(c.L, sep), obj, got, err, c.Pick)}, c)
 			return
+		}
+		if vi == 1 && (c.Pick == "text" || c.Pick == "json") {
+			var back renderNamed
+			if json.Unmarshal(w.Body.Bytes(), &back) != nil || back != obj.(renderNamed) {
+				s.mismatch(map[string]any{"kind": "render", "aspect": "body", "what": fmt.Sprintf("Accept: %q, value %#v -> render.Auto (%s): body %q does not decode back to the value",
+					strings.Join(c.L, sep), obj, c.Pick, w.Body.String())}, c)
+				return
+			}
 		}
 	}
 }
